@@ -26,17 +26,32 @@ import (
 )
 
 // ---------- ids ----------
-func nid(i int) el.NodeID {
+// Ids are small numbers in the model.  With lookalike set (every second case) the ids 1..4 of each kind are look-alike twins
+// of one another (case, trailing blank, trailing NUL, one a prefix of the other): a registry that normalises or truncates ids
+// merges what the sequential specification keeps apart.
+var lookalike bool
+var twins = []string{"", "node", "Node", "node ", "node\x00"}
+
+func name(prefix string, i int) string {
 	if i == 0 {
 		return ""
 	}
-	return el.NodeID(fmt.Sprintf("n%d", i))
+	if lookalike && i < len(twins) {
+		return prefix + twins[i]
+	}
+	return fmt.Sprintf("%s%d", prefix, i)
 }
-func pid(i int) el.PipelineID { return el.PipelineID(fmt.Sprintf("p%d", i)) }
-func ety(i int) el.EventType  { return el.EventType(fmt.Sprintf("t%d", i)) }
+func nid(i int) el.NodeID     { return el.NodeID(name("n", i)) }
+func pid(i int) el.PipelineID { return el.PipelineID(name("p", i)) }
+func ety(i int) el.EventType  { return el.EventType(name("t", i)) }
 func unN(s string) int {
 	if s == "" {
 		return 0
+	}
+	for i := 1; i < len(twins); i++ {
+		if s[1:] == twins[i] {
+			return i
+		}
 	}
 	var i int
 	fmt.Sscanf(s[1:], "%d", &i)
@@ -87,6 +102,45 @@ func (n *cnode) Close(ctx context.Context) error {
 	return nil
 }
 
+// a context that is not from the context package: done, with an error of its own
+type ownCtx struct {
+	context.Context
+	done chan struct{}
+}
+
+var errOwn = fmt.Errorf("caller gave up (own context type)")
+
+func (c ownCtx) Done() <-chan struct{} { return c.done }
+func (c ownCtx) Err() error            { return errOwn }
+
+func callerCtx(base context.Context, kind, d int) (context.Context, func()) {
+	switch kind {
+	case 1:
+		c, cancel := context.WithCancel(base)
+		cancel()
+		return c, func() {}
+	case 2:
+		c, cancel := context.WithDeadline(base, time.Now().Add(-time.Second))
+		return c, cancel
+	case 3:
+		c, cancel := context.WithTimeout(base, time.Duration(d)*time.Microsecond)
+		return c, cancel
+	case 4:
+		c, cancel := context.WithCancel(base)
+		go func() { runtime.Gosched(); cancel() }()
+		return c, func() {}
+	case 5:
+		c, cancel := context.WithCancelCause(base)
+		cancel(fmt.Errorf("custom cause"))
+		return c, func() {}
+	case 6:
+		ch := make(chan struct{})
+		close(ch)
+		return ownCtx{Context: base, done: ch}, func() {}
+	}
+	return base, func() {}
+}
+
 // ---------- operations ----------
 type Op struct {
 	K   string `json:"k"` // regnode rmnode regpipe rmpipe rpan thr thrs
@@ -99,6 +153,11 @@ type Op struct {
 	IDs []int  `json:"ids,omitempty"`
 	V   int64  `json:"v,omitempty"`
 	Bar int    `json:"bar,omitempty"` // > 0: wait at barrier number Bar (all goroutines of the case) right before the call
+	// the caller's context for RemoveNode / RemovePipelineAndNodes: 0 Background, 1 already cancelled, 2 deadline in the past,
+	// 3 a timeout of D microseconds that may fire while the call queues for the write lock, 4 cancelled asynchronously right
+	// after the call started, 5 cancelled with a custom cause, 6 a type of our own (not from the context package) that is done
+	Ctx int `json:"ctx,omitempty"`
+	D   int `json:"d,omitempty"`
 }
 type Case struct {
 	ID      int    `json:"id"`
@@ -109,6 +168,7 @@ type Case struct {
 	Sends   int    `json:"sends"`
 	Seed    uint64 `json:"seed"`
 	Types   []int  `json:"types,omitempty"` // event types observed after quiescence (default 1, 2)
+	Lookalike bool `json:"lookalike,omitempty"`
 }
 
 type opRec struct {
@@ -165,7 +225,8 @@ func polOpt(p int, node bool) []el.Option {
 
 func (w *world) apply(opid int, op Op) opRec {
 	rec := opRec{op: op, id: opid}
-	ctx := context.WithValue(context.Background(), opKey{}, opid)
+	ctx, release := callerCtx(context.WithValue(context.Background(), opKey{}, opid), op.Ctx, op.D)
+	defer release()
 	var err error
 	ok := false
 	switch op.K {
@@ -357,6 +418,7 @@ func writeHangs(out string) {
 }
 
 func runCaseRaw(c Case, readers bool) (out outcome) {
+	lookalike = c.Lookalike // cases run one after the other (a hung case ends the run soon after), so a package variable will do
 	b, _ := el.NewBroker()
 	w := &world{b: b, nthr: int64(len(c.Threads))}
 	maxBar := 0
@@ -420,6 +482,14 @@ func runCaseRaw(c Case, readers bool) (out outcome) {
 			for i := 0; i < c.Sends; i++ {
 				t := types[r.Intn(len(types))]
 				id := s*100000 + i + 1
+				if r.Chance(1, 6) {
+					// a Send whose caller context is (or becomes) done: raced against the registry calls, not part of the
+					// delivery oracle (a cancelled Send may deliver to any subset)
+					cctx, release := callerCtx(context.Background(), 1+r.Intn(6), 5)
+					_, _ = w.b.Send(cctx, ety(t), &probe{send: 1<<30 + id}) // ids of their own: negative ones are the probes at quiescence
+					release()
+					continue
+				}
 				sr := sendRec{id: id, ety: t}
 				sr.inv = w.tick()
 				_, _ = w.b.Send(context.Background(), ety(t), &probe{send: id})
@@ -442,7 +512,7 @@ func runCaseRaw(c Case, readers bool) (out outcome) {
 			func(i int) { w.b.SuccessThreshold(ety(types[i%len(types)])); w.b.SuccessThresholdSinks(ety(types[i%len(types)])) },
 			func(i int) { w.b.IsAnyPipelineRegistered(ety(types[i%len(types)])) },
 			func(i int) { _ = w.b.Reopen(context.Background()) },
-			func(i int) { _ = w.b.Reopen(context.Background()) },
+			func(i int) { c, release := callerCtx(context.Background(), i%7, 5); _ = w.b.Reopen(c); release() },
 			func(i int) { _ = w.b.SetSuccessThreshold(ety(1+i%2), i%2); _ = w.b.SetSuccessThresholdSinks(ety(1+i%2), 0) },
 		} {
 			rwg.Add(1)
@@ -569,6 +639,15 @@ type gen struct {
 	fobj int
 }
 
+// every second removal is made with a caller context that is (or becomes) done
+func (g *gen) withCtx(op Op) Op {
+	if g.r.Bool() {
+		op.Ctx = 1 + g.r.Intn(6)
+		op.D = []int{1, 5, 20, 100}[g.r.Intn(4)]
+	}
+	return op
+}
+
 func (g *gen) regpipe(t, p, pol int) []Op {
 	g.tap++
 	tap := g.tap
@@ -595,17 +674,25 @@ func (g *gen) thread(ti, nops int) []Op {
 		case x < 50:
 			ops = append(ops, Op{K: "rmpipe", Ety: t, Pid: p})
 		case x < 66:
-			ops = append(ops, Op{K: "rpan", Ety: t, Pid: p})
+			ops = append(ops, g.withCtx(Op{K: "rpan", Ety: t, Pid: p}))
 		case x < 76:
 			id := 1 + r.Intn(4)
 			g.fobj++
-			ops = append(ops, Op{K: "regnode", ID: id, Obj: g.fobj, Ty: nodeTy[id]})
+			pol := 0
+			if r.Chance(1, 5) {
+				pol = 1 + r.Intn(2) // allow-overwrite spelled out / deny-overwrite
+			}
+			ops = append(ops, Op{K: "regnode", ID: id, Obj: g.fobj, Ty: nodeTy[id], Pol: pol})
 		case x < 86:
-			ops = append(ops, Op{K: "rmnode", ID: 1 + r.Intn(4)})
+			ops = append(ops, g.withCtx(Op{K: "rmnode", ID: 1 + r.Intn(4)}))
 		case x < 93:
 			ops = append(ops, Op{K: "thr", Ety: t, V: int64(r.Intn(3))})
 		default:
 			ops = append(ops, Op{K: "thrs", Ety: t, V: int64(r.Intn(2))})
+		}
+		// idempotent repeats: the identical call once more right away (remove twice, the same definition / node / threshold again)
+		if r.Chance(1, 8) {
+			ops = append(ops, ops[len(ops)-1])
 		}
 	}
 	return ops
@@ -884,13 +971,16 @@ func main() {
 			per = 4
 		}
 		c := genCase(r.Fork(), th, per, 1+r.Intn(3), *sends)
+		c.Lookalike = i%2 == 1
 		e.emit(c)
 		if len(hangs) >= 2 {
 			break
 		}
 	}
 	for i := 0; i < *nrebind && len(hangs) < 2; i++ {
-		e.emit(genRebind(r.Fork(), 1+i%3, 1, 4))
+		c := genRebind(r.Fork(), 1+i%3, 1, 4)
+		c.Lookalike = i%2 == 1
+		e.emit(c)
 	}
 	for i := 0; i < *nfresh && len(hangs) < 2; i++ {
 		e.emit(genFresh(r.Fork(), 2+i%3, 3, 1, 2))
